@@ -60,6 +60,7 @@ GEN_FILE = os.path.join(C.LEAN, 'PMV', 'Gen', 'EventPaths.lean')
 
 def regen():
     tab, failures = T2.write_lean(GEN_FILE)
+    table_info()                 # built once here, inherited by the worker processes (fork)
     _, _, (der, dal) = T2.generate(derived=True)
     n = sum(len(T2.distinct_event_lists(i)[0]) for q, i in tab.items() if i['public'])
     nd = sum(len({tuple(p) for p in i['paths']}) for i in der.values()) + sum(len(i['paths']) for i in dal.values())
